@@ -12,8 +12,9 @@ insert into an empty tree, setdefault, update, the constructor, set algebra
 and in-place operators, multiunion on both sides of the 800-element sort
 switch, conflict merge, __setstate__ of leaves and trees) is executed once
 on an identically rebuilt copy with the hook in counting mode (a
-allocations), then on fresh copies with the fault `alloc-fail` at allocation
-n (quick: up to 3 sampled n; thorough: every n <= a).
+allocations), then on fresh copies with the fault `alloc-fail` at every
+allocation n <= a (fault enumeration over the placement, capped at 64; the
+histories and operations are sampled).
 
 Oracle: if the countdown fired the call raises MemoryError; afterwards
 _check(), check.check() and the walker accept the container, its listing is
@@ -34,7 +35,7 @@ from . import common, cmpfault
 
 PROP = "C17"
 SHRINK = [["build"], ["follow"]]
-BUDGET = {"quick": {"plain": 7000, "asan": 5000, "max_s": 110},
+BUDGET = {"quick": {"plain": 6000, "asan": 4000, "max_s": 110},
           "thorough": {"plain": 200000, "asan": 150000, "max_s": 1500}}
 RULE = ("one run = one seeded shape + one allocating operation, executed "
         "once to count its a allocations and then on fresh copies with the "
@@ -44,18 +45,18 @@ RULE = ("one run = one seeded shape + one allocating operation, executed "
         "failure really fired")
 TECHNIQUE = ("fault injection at the allocator seam (guarded hook: the n-th "
              "BTree_Malloc/BTree_Realloc of one operation fails), "
-             "enumerated over n in the thorough tier; MemoryError, "
+             "enumerated over every n; MemoryError, "
              "soundness, old-or-new contents, follow-up workload and "
              "reference ledger oracles; sanitizer build")
 LEVEL_TEXT = ("Seeded shapes (all families, 4 kinds, C implementation) x "
               "seeded allocating operation kinds x allocation index n "
-              "(sampled in quick, enumerated in thorough) through the "
+              "(enumerated) through the "
               "guarded allocation-failure hook: MemoryError must reach the "
               "caller, the container must stay sound with old-or-completed "
               "contents and keep working (the failed leaf is grown again), "
               "references must balance; run on the plain and on the "
               "ASan+UBSan build.")
-LEVEL = {"quick": "exploration", "thorough": "fault_enumeration"}
+LEVEL = {"quick": "fault_enumeration", "thorough": "fault_enumeration"}
 ASSUMPTIONS = ["allocation failures are injected at BTree_Malloc / "
                "BTree_Realloc only (the wrappers the property anchors), not "
                "at CPython's object allocator"]
@@ -126,7 +127,7 @@ def plan(rng, tier):
     follow += [g.op() for _ in range(rng.randint(4, 10))]
     return {"cfg": cfg, "build": build, "op": op, "follow": follow,
             "idx": [rng.randrange(1 << 16) for _ in range(3)],
-            "_all": tier == "thorough"}
+            "_all": True}
 
 
 def simplify(plan):
